@@ -15,6 +15,8 @@ type VClock struct {
 	now    time.Time
 	timers []*vtimer
 	last   *vtimer
+	// nowCalls counts Now() calls (lets a harness see that a goroutine has read the clock)
+	nowCalls int
 }
 
 type vtimer struct {
@@ -34,7 +36,15 @@ func NewVClock(t time.Time) *VClock { return &VClock{now: t} }
 func (v *VClock) Now() time.Time {
 	v.mu.Lock()
 	defer v.mu.Unlock()
+	v.nowCalls++
 	return v.now
+}
+
+// NowCalls returns how many times Now was called.
+func (v *VClock) NowCalls() int {
+	v.mu.Lock()
+	defer v.mu.Unlock()
+	return v.nowCalls
 }
 
 func (v *VClock) Since(t time.Time) time.Duration { return v.Now().Sub(t) }
